@@ -6,7 +6,8 @@ Open Scope N_scope.
 
 Record ltick := {
   t_resp : option (list nat * option nat);   (* the response the node processed in this iteration: listed nodes, token-bearing responder *)
-  t_closest : list nat; t_responders : list nat; t_visited : list (N * N) }.
+  t_closest : list nat; t_responders : list nat; t_visited : list (N * N);
+  t_seen : bool }.   (* false for the iteration in which the lookup finished: its state is gone before it can be read *)
 
 Inductive c07case :=
 | KLookup (target : N) (univ : list (N * N * N)) (init_closest : list nat) (init_responders : list nat) (init_visited : list (N * N))
@@ -32,7 +33,18 @@ Fixpoint run07_ticks (u : univ) (q : iq) (ticks : list ltick) : bool :=
                   | None => None
                   end in
       let q' := fst (iq_tick q resp) in
-      state_eqb q' u t && run07_ticks u q' r
+      (if t_seen t then state_eqb q' u t else true) && run07_ticks u q' r
+  end.
+
+Fixpoint final07 (u : univ) (q : iq) (ticks : list ltick) : iq :=
+  match ticks with
+  | [] => q
+  | t :: r =>
+      let resp := match t_resp t with
+                  | Some (ns, rs) => Some (map (unode u) ns, option_map (unode u) rs)
+                  | None => None
+                  end in
+      final07 u (fst (iq_tick q resp)) r
   end.
 
 (* every node the lookup ever learned (initial candidates and every node listed by a processed response),
@@ -48,12 +60,11 @@ Definition learned_closure (target : id) (cl : list node) (visited : list (N * N
     learned.
 
 (* the property on the node's own final state *)
-Definition closure_pb (target : id) (u : univ) (last : ltick) (reqs : list N) (is_find : bool) (result : list nat)
-    (learned : list node) : bool :=
-  let cl := map (unode u) (t_closest last) in
-  learned_closure target cl (t_visited last) learned &&
+Definition closure_pb (target : id) (u : univ) (cl rs : list node) (visited : list (N * N)) (reqs : list N) (is_find : bool)
+    (result : list nat) (learned : list node) : bool :=
+  learned_closure target cl visited learned &&
   (* every one of the 20 closest candidates was queried *)
-  forallb (fun n => existsb (addr_eqb (naddr n)) (t_visited last)) (firstn 20 cl)
+  forallb (fun n => existsb (addr_eqb (naddr n)) visited) (firstn 20 cl)
   (* candidates in (secure first, XOR) order *)
   && strictly_sorted target cl
   (* no address asked twice by this lookup *)
@@ -61,8 +72,7 @@ Definition closure_pb (target : id) (u : univ) (last : ltick) (reqs : list N) (i
   (* find_node reports the closest candidates in that order; a lookup for storage reports a prefix of
      the closest responders of length >= min(20, available) *)
   && (if is_find then nodes_same (firstn 20 cl) (map (unode u) result)
-      else let rs := map (unode u) (t_responders last) in
-           nodes_same (firstn (length result) rs) (map (unode u) result)
+      else nodes_same (firstn (length result) rs) (map (unode u) result)
            && (Nat.min 20 (length rs) <=? length result)%nat
            && strictly_sorted target rs).
 
@@ -76,7 +86,13 @@ Definition check07 (c : c07case) : list N :=
       (match rev ticks with
        | last :: _ =>
            let learned := map (unode u) (ic ++ flat_map (fun t => match t_resp t with Some (ns, _) => ns | None => [] end) ticks) in
-           if closure_pb tg u last reqs isf result learned then [] else [2]
+           (* the final state: the node's own dump, or - for the iteration in which the lookup was removed - the
+              model's state after that iteration (all earlier iterations were compared with the node) *)
+           let qf := final07 u q0 ticks in
+           let '(cl, rs, vis) :=
+             if t_seen last then (map (unode u) (t_closest last), map (unode u) (t_responders last), t_visited last)
+             else (iq_closest qf, iq_resp qf, iq_visited qf) in
+           if closure_pb tg u cl rs vis reqs isf result learned then [] else [2]
        | [] => [2]
        end)
   end.
